@@ -123,8 +123,17 @@ def _axis(ctx, what, firsts, lasts, dim, ref_edges, det):
 def _eval_geometry(ctx, w, h, cw, ch, d, ho, sx, sy, tag):
     """One tuple.  Returns False when the real code raised."""
     f = _real()
-    state = f["State"](luma_width=w, luma_height=h, color_diff_width=cw, color_diff_height=ch, dwt_depth=d, dwt_depth_ho=ho,
-                       slices_x=sx, slices_y=sy)
+    f["n"] = f.get("n", 0) + 1
+    if (f["n"] // 16) % 2 == 0:
+        state = f["State"](luma_width=w, luma_height=h, color_diff_width=cw, color_diff_height=ch, dwt_depth=d, dwt_depth_ho=ho,
+                           slices_x=sx, slices_y=sy)
+    else:
+        # the decoder keeps one state object for a whole stream and rewrites its entries between pictures and
+        # sequences: every other run of 16 tuples is evaluated on one long-lived object updated in place
+        state = f.setdefault("shared_state", f["State"]())
+        state.update(luma_width=w, luma_height=h, color_diff_width=cw, color_diff_height=ch, dwt_depth=d, dwt_depth_ho=ho,
+                     slices_x=sx, slices_y=sy)
+        ctx.count("tuples_on_reused_state_object")
     sbw, sbh = f["subband_width"], f["subband_height"]
     sl, sr, st, sb = f["slice_left"], f["slice_right"], f["slice_top"], f["slice_bottom"]
 
